@@ -290,7 +290,8 @@ Definition agrees (en : env) (m : mstate) : Prop :=
   c_tell (m_ctx m) = false.      (* not inside a tell block: a system property is attached to its own object *)
 
 (* ---- straight-line statements ---- *)
-Inductive target := TLoc (i : nat) | TPar (i : nat) | TGlob (n : nat) | TProp (n : nat).
+Inductive target := TLoc (i : nat) | TPar (i : nat) | TGlob (n : nat) | TProp (n : nat)
+  | TByName (n : nat).     (* set the <names[n]> = ... : the by-name write 60 n, same opcode class as the property write 50 n *)
 Inductive stmt :=
 | SSet (t : target) (e : expr)                 (* set t = e *)
 | SCallS (f : nat) (args : list expr)          (* external handler, statement position *)
@@ -303,6 +304,7 @@ Definition compile_store (t : target) : bytes :=
   | TPar i => [b 81; b (scaled i)]
   | TGlob n => [b 79; b (Z.of_nat n)]
   | TProp n => [b 80; b (Z.of_nat n)]
+  | TByName n => [b 96; b (Z.of_nat n)]
   end.
 Definition compile_s (s : stmt) : bytes :=
   match s with
@@ -324,7 +326,7 @@ Definition target_node (en : env) (props : list string) (pc : Z) (t : target) : 
   | TLoc i => nth i (e_locals en) (Leaf KLocal "" 0 true)
   | TPar i => nth i (e_params en) (Leaf KParam "" 0 true)
   | TGlob n => Leaf KGlobal (nm en n) pc true
-  | TProp n => if mem_str (nm en n) props then Accessor pc (Leaf KNode "me" pc true) (nm en n) else Leaf KPropName (nm en n) pc true
+  | TProp n | TByName n => if mem_str (nm en n) props then Accessor pc (Leaf KNode "me" pc true) (nm en n) else Leaf KPropName (nm en n) pc true
   end.
 
 (* the statement node appended to FunctionDef.statements when the code of s starts at pc *)
@@ -359,7 +361,7 @@ Definition wf_target (en : env) (t : target) : Prop :=
   match t with
   | TLoc i => (i < List.length (e_locals en))%nat /\ scaled i < 256
   | TPar i => (i < List.length (e_params en))%nat /\ scaled i < 256
-  | TGlob n | TProp n => (n < List.length (e_names en))%nat /\ Z.of_nat n < 256
+  | TGlob n | TProp n | TByName n => (n < List.length (e_names en))%nat /\ Z.of_nat n < 256
   end.
 Definition wf_s (en : env) (s : stmt) : Prop :=
   match s with
